@@ -10,6 +10,8 @@ Import ListNotations.
 Open Scope Z_scope.
 Open Scope res_scope.
 
+Ltac forall_good tac := repeat (apply Forall_cons; [simpl; auto 10; tac|]); try apply Forall_nil.
+
 Ltac nodup_keys :=
   simpl; repeat (constructor; [simpl; intuition discriminate|]); try constructor.
 
@@ -17,14 +19,14 @@ Ltac nodup_keys :=
 Lemma enc_dinfo_good fl inf : Forall good_dinfo (enc_dinfo fl inf) /\ NoDup (map fst (enc_dinfo fl inf)).
 Proof.
   unfold enc_dinfo. destruct fl as [f1 f2 f3 f4 f5 f6].
-  destruct f1, f2, f3, f4, f5, f6; simpl; (split; [repeat constructor; simpl; auto 10|nodup_keys]).
+  destruct f1, f2, f3, f4, f5, f6; simpl; (split; [forall_good idtac|nodup_keys]).
 Qed.
 
 Lemma enc_dense_good d : Forall good_dense (enc_dense d) /\ NoDup (map fst (enc_dense d)).
 Proof.
   rewrite enc_dense_eq. destruct (enc_dinfo_good (de_cols d) (map dn_info (de_nodes d))) as [G N].
   destruct (de_hasinfo d), (de_haskv d); simpl;
-    (split; [repeat constructor; simpl; auto 10|nodup_keys]).
+    (split; [forall_good idtac|nodup_keys]).
 Qed.
 
 Lemma enc_info_good b fl i : info_ok b true fl i = true ->
@@ -37,7 +39,7 @@ Proof.
     exists (id_usid i), (str b (id_usid i)). pose proof (sid_ok_spec b _ H5) as [A B].
     split; [apply uint32_small; lia|]. apply idx_str. exact H5. }
   destruct f1, f2, f3, f4, f5, f6; simpl;
-    (split; [repeat constructor; simpl; auto 10; apply G5; reflexivity|nodup_keys]).
+    (split; [forall_good ltac:(try (apply G5; reflexivity))|nodup_keys]).
 Qed.
 
 Lemma enc_rel_good b r : rel_ok b r = true ->
@@ -49,7 +51,7 @@ Proof.
   { intros E. rewrite E in Hinfo. destruct (enc_info_good b _ _ Hinfo) as [A B]. simpl. auto. }
   destruct (has_tags (rd_tags r) (rd_forcetags r)), (rd_hasinfo r),
            (match rd_members r with [] => rd_forcemembers r | _ :: _ => true end); simpl;
-    (split; [repeat constructor; simpl; auto 10; apply Gi; reflexivity|nodup_keys]).
+    (split; [forall_good ltac:(try (apply Gi; reflexivity))|nodup_keys]).
 Qed.
 
 Lemma enc_way_good b w : way_ok b w = true ->
@@ -67,8 +69,7 @@ Proof.
   { intros E. destruct (Hlocs E) as (La & Lo & _). simpl. rewrite !deltas64_length. auto 10. }
   destruct (has_tags (wd_tags w) (wd_forcetags w)), (wd_hasinfo w),
            (match wd_refs w with [] => wd_forcerefs w | _ :: _ => true end), (wd_haslocs w); simpl;
-    (split; [repeat constructor; simpl; auto 10; try (apply Gi; reflexivity); try exact G8;
-             try (apply (G9 eq_refl))|nodup_keys]).
+    (split; [forall_good ltac:(try (apply Gi; reflexivity); try exact G8; try (apply (G9 eq_refl)))|nodup_keys]).
 Qed.
 
 (* ---------- items ---------- *)
@@ -184,28 +185,28 @@ Proof.
   repeat (apply orb_prop in E; destruct E as [E|E]); apply Z.eqb_eq in E; rewrite E in K; discriminate.
 Qed.
 
+Lemma filter_rel1_groups gs : filter (fun f : Z * wval => rel1 (fst f)) (map enc_group gs) = [].
+Proof. induction gs as [|a gs' IHg]; [reflexivity|unfold enc_group; simpl; exact IHg]. Qed.
+
 Lemma pass1_layout m b : canon_block m = encode_block b -> valid_block b = true ->
   pass1 m p0 = Ok (bp b).
 Proof.
-  intros Hc Hv. rewrite <- (pass1_encode b Hv). rewrite !pass1_gloop.
+  intros Hc Hv. rewrite <- (pass1_encode b Hv). rewrite (pass1_gloop m), (pass1_gloop (encode_block b)).
   rewrite (gloop_filter _ pass1_step rel1 p1_ign1 m p0).
   rewrite (gloop_filter _ pass1_step rel1 p1_ign1 (encode_block b) p0).
   assert (Hp : Permutation (filter (fun f => rel1 (fst f)) (encode_block b)) (filter (fun f => rel1 (fst f)) m)).
   { rewrite <- Hc, canon_block_eq.
     eapply Permutation_trans; [apply Permutation_filter, sort_fields_perm|].
     rewrite filter_rel1_gphi, filter_rel1_known. apply Permutation_refl. }
+  symmetry.
   apply (gloop_perm _ pass1_step (fun _ => True) good_p1 (fun f s => p1_total f s) (fun f g s => p1_diamond f g s) _ _ Hp);
     [| |exact I].
   - unfold encode_block. destruct b as [st om g dg la lo gs]. simpl.
     rewrite !filter_app.
-    assert (Eg : filter (fun f : Z * wval => rel1 (fst f)) (map enc_group gs) = [])
-      by (induction gs; simpl; auto).
-    rewrite Eg. destruct om, g, dg, la, lo; simpl; repeat constructor; simpl; auto.
+    rewrite filter_rel1_groups. destruct om, g, dg, la, lo; simpl; forall_good idtac.
   - unfold encode_block. destruct b as [st om g dg la lo gs]. simpl.
     rewrite !filter_app.
-    assert (Eg : filter (fun f : Z * wval => rel1 (fst f)) (map enc_group gs) = [])
-      by (induction gs; simpl; auto).
-    rewrite Eg. destruct om, g, dg, la, lo; nodup_keys.
+    rewrite filter_rel1_groups. destruct om, g, dg, la, lo; nodup_keys.
 Qed.
 
 (* pass 2 only looks at the fields numbered 2, in order *)
@@ -226,12 +227,13 @@ Proof.
     destruct (Z.eqb_spec (fst x) 2) as [E'|_]; [contradiction|]. exact IH.
 Qed.
 
+Lemma filter2_groups gs : filter (keyis 2) (map enc_group gs) = map enc_group gs.
+Proof. unfold keyis. induction gs as [|a gs' IHg]; simpl; [reflexivity|]. rewrite IHg. reflexivity. Qed.
+
 Lemma filter2_encode b : filter (keyis 2) (encode_block b) = map enc_group (b_groups b).
 Proof.
-  unfold encode_block, keyis. destruct b as [st om g dg la lo gs]. simpl. rewrite !filter_app.
-  assert (Eg : filter (fun f : Z * wval => fst f =? 2) (map enc_group gs) = map enc_group gs)
-    by (induction gs as [|a gs' IHg]; simpl; [reflexivity|rewrite IHg; reflexivity]).
-  rewrite Eg. destruct om, g, dg, la, lo; simpl; rewrite ?app_nil_r; reflexivity.
+  unfold encode_block. rewrite !filter_app, filter2_groups.
+  destruct (b_omit_st b), (b_gran b), (b_dgran b), (b_latoff b), (b_lonoff b); simpl; rewrite ?app_nil_r; reflexivity.
 Qed.
 
 Lemma pass2_layout b : forall gs' gs d q,
@@ -258,8 +260,8 @@ Proof.
   unfold scan_result, scan_block. rewrite (pass1_layout m b Hc Hv). simpl.
   rewrite pass2_keyis2.
   assert (Hm : map (on_msg canon_group) (filter (keyis 2) m) = map enc_group (b_groups b)).
-  { rewrite <- filter2_gphi, <- canon_block_eq, <- filter_sort_fields at 1.
-    rewrite <- filter2_encode, <- Hc, canon_block_eq. rewrite filter_sort_fields. reflexivity. }
+  { rewrite <- (filter2_gphi m). rewrite <- (filter_sort_fields 2 (map gphi (drop_unknown m))).
+    change (sort_fields (map gphi (drop_unknown m))) with (canon_block m). rewrite Hc. apply filter2_encode. }
   assert (Hg : forallb (forallb (item_ok b)) (b_groups b) = true).
   { unfold valid_block in Hv. apply andb_prop in Hv. destruct Hv as [_ Hv]. exact Hv. }
   destruct (pass2_layout b _ _ (mkD (bp b) (d_dc st) (d_wc st)) [] Hm Hg eq_refl) as (d' & E & _).
